@@ -327,6 +327,15 @@ func (session *HermesSession) Run(workingDir string, args []string, logID string
 
 			g.TAG.Add(g.DT.Index)
 			if g.TAG.Index+1 > g.JTAG {
+				// the loaded year has to be complete before the next one is taken up:
+				// a series that ends early would otherwise shift every later day against the calendar
+				yearLen := 365
+				if (1900+g.J)%4 == 0 {
+					yearLen = 366
+				}
+				if g.JTAG < yearLen {
+					return fmt.Errorf("weather data of year %d ends on day %d", 1900+g.J, g.JTAG)
+				}
 				g.J++
 				JZ = JZ + 1
 				//MONAT 1 TAG 1
